@@ -274,6 +274,17 @@ def run_c12(ctx: Ctx):
         d = init_of(name)
         ctx.ob("C12-INIT", f"{q}/{name}:init", len(d) == 1 and d[0].value is not None and norm(d[0].value) in want,
                f"`{name}` starts as {want[0]}", node=d[0] if d else f, mod=m, nontrivial=False)
+    # the two result lists are bound once (their initialisation) and the function has one exit, after the loop: a result that does not come
+    # out of the loop (a remembered one, a shortcut) is not covered by the invariant
+    for name in (ALL, IDX):
+        binds = [s_ for s_ in stmts_local(f.body) if isinstance(s_, (ast.Assign, ast.AnnAssign, ast.AugAssign, ast.For, ast.With)) and name in assigned_names(s_)]
+        ctx.ob("C12-INIT", f"{q}/{name}:bound-once", len(binds) == 1,
+               f"`{name}` is bound only by its initialisation ({len(binds)} bindings: {[norm(b_)[:40] for b_ in binds[:3]]})", node=binds[1] if len(binds) > 1 else f, mod=m,
+               nontrivial=False)
+    early = [r_ for r_ in walk_local(f) if isinstance(r_, ast.Return) and r_ not in post]
+    ctx.ob("C12-EXIT", f"{q}/single-exit-after-the-loop", not early,
+           f"every result is the one the loop built: no return before or inside the loop ({[norm(r_)[:50] for r_ in early[:2]]})", node=early[0] if early else f, mod=m,
+           nontrivial=bool(early))
     # P4: sorted by start
     d = init_of(TOKS)
     sorted_ok = False
